@@ -117,29 +117,41 @@ Definition dec_agrees (fine : bool) (m : dec_result) (o : dobs) : bool :=
   end.
 
 (* a document given to Decrypt: explicit bytes, or "the document the published format
-   prescribes for (manifest, file key, plaintext)" together with the digest of the bytes the
-   harness actually fed to the implementation *)
+   prescribes for (manifest, file key, plaintext) with the manifest line written in style sty"
+   (member order, whitespace, escapes: [manifest_text]; Go's own style gives [encrypt_doc])
+   together with the digest of the bytes the harness actually fed to the implementation *)
 Inductive docsrc :=
 | DBytes (bs : list N)
-| DSpec (m : manifest) (fk : list N) (p : pgen) (len : N) (digest : list N).
+| DSpec (sty : mstyle) (m : manifest) (fk : list N) (p : pgen) (len : N) (digest : list N).
 
 Definition doc_bytes (d : docsrc) : list N :=
   match d with
   | DBytes bs => bs
-  | DSpec m fk p _ _ => encrypt_doc concrete SEG m fk (pbytes p)
+  | DSpec sty m fk p _ _ =>
+      encrypt_doc_text concrete SEG (manifest_text concrete sty m) m fk (pbytes p)
   end.
 
 Definition doc_consistent (d : docsrc) (bs : list N) : bool :=
   match d with
   | DBytes _ => true
-  | DSpec _ _ _ len dg => obytes_match bs (OH len dg)
+  | DSpec _ _ _ _ len dg => obytes_match bs (OH len dg)
+  end.
+
+(* the wrap callback of a case: a toy vault keyed by NAME - a finite table (algorithm, key
+   name) -> wrapped key for the file key Encrypt drew; any other call fails.  The harness's
+   WrapKeyFn is the same vault. *)
+Definition wtable := list (list N * list N * list N).
+
+Fixpoint wrap_of (t : wtable) (fk a k : list N) : option (list N) :=
+  match t with
+  | [] => None
+  | (a', k', w) :: t' => if eqb_listN a a' && eqb_listN k k' then Some w else wrap_of t' fk a k
   end.
 
 Inductive case :=
-(* Go Encrypt: options, the file key / nonce prefix it drew and the wrapped key the callback
-   returned, the (algorithm, key name) the callback was called with, plaintext, read script of
-   the source, observation *)
-| CEnc (o : enc_opts) (fk np wfk : list N) (wrap_args : option (list N * list N))
+(* Go Encrypt: options, the file key / nonce prefix it drew ([] when it never got that far),
+   the vault behind the wrap callback, plaintext, read script of the source, observation *)
+| CEnc (o : enc_opts) (fk np : list N) (wt : wtable)
        (p : pgen) (sc : list sitem) (obs : eobs)
 (* Go Decrypt of a VALID document: document, unwrap table, DecryptOptions.KeyName, read script
    of the source, file key and plaintext of the document, observation *)
@@ -150,22 +162,14 @@ Inductive case :=
 | CTamper (p : pgen) (d : option (list N)) (tbl : utable) (optkn : list N) (sc : list sitem)
           (obs : dobs).
 
-Definition pair_eqb (a b : option (list N * list N)) : bool :=
-  match a, b with
-  | None, None => true
-  | Some (a1, a2), Some (b1, b2) => eqb_listN a1 b1 && eqb_listN a2 b2
-  | _, _ => false
-  end.
-
 Definition model_agrees (c : case) : bool :=
   match c with
-  | CEnc o fk np wfk wa p sc obs =>
-      pair_eqb wa (match obs with EOCall => wa | _ => encrypt_wrap_args o end)
-      && match encrypt_stream concrete SEG HDR o fk np wfk (mk_script sc (pbytes p)), obs with
-         | EncCallError, EOCall => true
-         | EncStream out st, EOStream oout ost => obytes_match out oout && sstatus_eqb st ost
-         | _, _ => false
-         end
+  | CEnc o fk np wt p sc obs =>
+      match encrypt_stream_w concrete SEG HDR o fk np (wrap_of wt) (mk_script sc (pbytes p)), obs with
+      | EncCallError, EOCall => true
+      | EncStream out st, EOStream oout ost => obytes_match out oout && sstatus_eqb st ost
+      | _, _ => false
+      end
   | CDec d tbl optkn sc fk p obs =>
       let bs := doc_bytes d in
       dec_agrees true
@@ -200,12 +204,12 @@ Definition manifest_of_doc (bs : list N) : option manifest :=
 
 Definition oracle (c : case) : bool :=
   match c with
-  | CEnc o fk np wfk wa p sc obs =>
+  | CEnc o fk np wt p sc obs =>
       let pb := pbytes p in
       if sitems_fail sc then
         match obs with EOStream _ SClean => false | _ => true end
       else
-        match encrypt_spec concrete SEG o fk np wfk pb, obs with
+        match encrypt_spec_w concrete SEG o fk np (wrap_of wt) pb, obs with
         | None, EOCall => true
         | Some d, EOStream oout SClean =>
             obytes_match d oout
